@@ -209,6 +209,12 @@ def h_conversions(tier):
             # any second of that day maps back to the same date
             s = S.integer("second", lo=0, hi=86399)
             S.prove("unixtime_to_date(any second of the day)=d", util.unixtime_to_date(ut + s) == d)
+        # date arithmetic: adding k days gives the k-th following calendar day
+        k = S.choose("days", 3) + 1
+        nxt = util.get_date(d, k)
+        dconc = calmodel.concretise_int(d, "date") if S.symbolic else int(d)
+        base = real_datetime.date(dconc // 10000, (dconc // 100) % 100, dconc % 100) + real_datetime.timedelta(days=k)
+        S.prove("get_date-steps-by-calendar-days", nxt == base.year * 10000 + base.month * 100 + base.day, detail="+%d" % k)
         dn = util.date_to_datenum(d)
         S.observe("datenum", dn)
         S.prove("datenum_to_date(date_to_datenum(d))=d", util.datenum_to_date(dn) == d, twin=util.datenum_to_date(dn) == d + 1)
